@@ -264,7 +264,7 @@ def _enumerate(world, K, thorough):
 
 
 # classes handled by dedicated routes (rules_routes), not by the skeleton tables
-ROUTE_CLASSES = {'Rule', 'Class', 'Call'}
+ROUTE_CLASSES = {'Rule', 'Class', 'Call', 'KeywordArg'}
 
 CTOR_PARAMS = {
     # the constructor parameters the tables above were written for; a new parameter
@@ -283,6 +283,7 @@ CTOR_PARAMS = {
     'Ref': ['name'], 'Call': ['func', 'args'],
     'Rule': ['name', 'params', 'expr', 'is_ignored', 'is_omitted'],
     'Class': ['name', 'params', 'members', 'is_ignored'],
+    'KeywordArg': ['name', 'expr'],
 }
 
 
